@@ -66,6 +66,20 @@ Local Arguments the_renderer : simpl never.
 Local Arguments ddict_set : simpl never.
 Local Arguments Z.of_nat : simpl never.
 
+Local Arguments p_width : simpl never.
+
+Lemma inv_prepare_head_src (st : pstate) (mw prep mw' prep' ls cn ds : pv) (rs : list pv) :
+  cur kq rs = posr kq mw' prep' st -> no_default (p_u st) -> no_default (p_c st) ->
+  call_method call_ref PR render_inv_prepare_expand (inv_env mw prep ls cn ds rs) [] =
+  Ok (inv_env (PInt (Z.of_nat (p_width numfmt st))) prep ls cn ds
+        (ddict_set rs (PBool true) (the_renderer numfmt kq st)), PNone).
+Proof.
+  intros Hcur Hu Hc.
+  unfold call_method, render_inv_prepare_expand, inv_env. cbn [bind_params f_params f_body f_gen].
+  repeat (progress (cbn; rewrite ?pr_getdefault, ?Hcur, ?(pr_prepare _ _ _ Hu Hc), ?pr_set)).
+  reflexivity.
+Qed.
+
 (* prepare() with expand = True, then ColumnRenderer.prepare: the renderer the key True stands for is prepared and stored
    under True (it is then format's the_renderer st), maxwidth = its width = Render.p_width, which is also the result *)
 Theorem inv_prepare_expand_src : forall (st : pstate) (mw prep mw' prep' ls cn ds : pv) (rs : list pv),
@@ -77,8 +91,6 @@ Theorem inv_prepare_expand_src : forall (st : pstate) (mw prep mw' prep' ls cn d
       PInt (Z.of_nat (p_width numfmt st))).
 Proof.
   intros st mw prep mw' prep' ls cn ds rs Hcur Hu Hc.
-  unfold call_method at 1, render_inv_prepare_expand, inv_env. cbn [bind_params f_params f_body f_gen].
-  repeat (progress (cbn; rewrite ?pr_getdefault, ?Hcur, ?(pr_prepare _ _ _ Hu Hc), ?pr_set)).
-  reflexivity.
+  rewrite (inv_prepare_head_src st mw prep mw' prep' ls cn ds rs Hcur Hu Hc). cbn [bind fst]. reflexivity.
 Qed.
 End InvPrepTie.
